@@ -457,14 +457,26 @@ fn c13_delete_expired_batch2() {
 // ------------------------------------------------------------------------------------------------
 #[derive(Clone, Copy, PartialEq, Eq)]
 struct OpD {
-    /// 0 create, 1 update, 2 update_ttl, 3 delete, 4 change_id
+    /// 0 create, 1 update, 2 update_ttl, 3 delete, 4 change_id, 5 load, 6 delete_expired(None)
     k: u8,
     i: usize,
     j: usize,
     st: VMap,
     ttl: i64,
 }
-const OP_NAMES: [&str; 5] = ["create", "update", "update_ttl", "delete", "change_id"];
+const OP_NAMES: [&str; 7] = ["create", "update", "update_ttl", "delete", "change_id", "load", "delete_expired"];
+/// what an operation answered: a result code plus, for `load`, the state and remaining ttl (ticks) it
+/// returned and, for `delete_expired`, the count
+#[derive(Clone, Copy, PartialEq, Eq)]
+struct Res {
+    code: u8,
+    aux: i64,
+    st: VMap,
+}
+const fn res(code: u8) -> Res {
+    Res { code, aux: 0, st: [0, 0] }
+}
+const R_NONE: u8 = 3;
 const R_OK: u8 = 0;
 const R_UNKNOWN: u8 = 1;
 const R_DUPLICATE: u8 = 2;
@@ -472,53 +484,71 @@ const R_OTHER: u8 = 7;
 const R_NOT_RUN: u8 = 9;
 
 /// the documented semantics of one operation on the reference map
-fn model_apply(m: &Model, o: &OpD, now: i64) -> (u8, Model) {
+fn model_apply(m: &Model, o: &OpD, now: i64) -> (Res, Model) {
     let mut m2 = *m;
     let live_i = m.live(o.i, now);
     let fresh = MRec { present: true, state: o.st, deadline: now + o.ttl };
     match o.k {
         0 => {
             if live_i {
-                (R_DUPLICATE, m2)
+                (res(R_DUPLICATE), m2)
             } else {
                 m2.recs[o.i] = fresh;
-                (R_OK, m2)
+                (res(R_OK), m2)
             }
         }
         1 => {
             if live_i {
                 m2.recs[o.i] = fresh;
-                (R_OK, m2)
+                (res(R_OK), m2)
             } else {
-                (R_UNKNOWN, m2)
+                (res(R_UNKNOWN), m2)
             }
         }
         2 => {
             if live_i {
                 m2.recs[o.i].deadline = fresh.deadline;
-                (R_OK, m2)
+                (res(R_OK), m2)
             } else {
-                (R_UNKNOWN, m2)
+                (res(R_UNKNOWN), m2)
             }
         }
         3 => {
             if live_i {
                 m2.recs[o.i] = NOREC;
-                (R_OK, m2)
+                (res(R_OK), m2)
             } else {
-                (R_UNKNOWN, m2)
+                (res(R_UNKNOWN), m2)
             }
+        }
+        5 => {
+            if live_i {
+                (Res { code: R_OK, aux: m.recs[o.i].deadline - now, st: m.recs[o.i].state }, m2)
+            } else {
+                (res(R_NONE), m2)
+            }
+        }
+        6 => {
+            let stale = |i: usize| m.recs[i].present && !m.live(i, now);
+            let n = stale(0) as i64 + stale(1) as i64;
+            if stale(0) {
+                m2.recs[0] = NOREC;
+            }
+            if stale(1) {
+                m2.recs[1] = NOREC;
+            }
+            (Res { code: R_OK, aux: n, st: [0, 0] }, m2)
         }
         _ => {
             if m.live(o.j, now) {
-                (R_DUPLICATE, m2)
+                (res(R_DUPLICATE), m2)
             } else if !live_i {
-                (R_UNKNOWN, m2)
+                (res(R_UNKNOWN), m2)
             } else {
                 let moved = m.recs[o.i];
                 m2.recs[o.i] = NOREC;
                 m2.recs[o.j] = moved;
-                (R_OK, m2)
+                (res(R_OK), m2)
             }
         }
     }
@@ -526,7 +556,7 @@ fn model_apply(m: &Model, o: &OpD, now: i64) -> (u8, Model) {
 
 static mut ADV_OP: OpD = OpD { k: 0, i: 0, j: 0, st: [0, 0], ttl: 1 };
 static mut ADV_NOW: i64 = 0;
-static mut ADV_RES: u8 = R_NOT_RUN;
+static mut ADV_RES: Res = res(R_NOT_RUN);
 
 fn raw_rec(map: &HashMap<SessionId, StoreRecord>, id: u128) -> MRec {
     match map.get(&sid(id)) {
@@ -550,7 +580,7 @@ fn raw_put(map: &mut HashMap<SessionId, StoreRecord>, id: u128, before: &MRec, a
 /// operation under test is between two critical sections.
 fn other_task(p: *mut ()) {
     unsafe {
-        if ADV_RES != R_NOT_RUN {
+        if ADV_RES.code != R_NOT_RUN {
             return;
         }
         let map = &mut *(p as *mut HashMap<SessionId, StoreRecord>);
@@ -569,7 +599,7 @@ fn any_op(kinds_lo: u8, kinds_hi: u8) -> OpD {
 }
 
 /// run the operation under test on the real store (ids as constants per branch, see `any_idx`)
-fn exec_real(s: &InMemorySessionStore, o: &OpD) -> u8 {
+fn exec_real(s: &InMemorySessionStore, o: &OpD) -> Res {
     let ttl = verif_duration(o.ttl);
     let rec = || SessionRecordRef { state: Cow::Owned(to_state(&o.st)), ttl };
     match o.k {
@@ -577,25 +607,44 @@ fn exec_real(s: &InMemorySessionStore, o: &OpD) -> u8 {
             let r = if o.i == 0 { s.create(&id_of(0), rec()) } else { s.create(&id_of(1), rec()) };
             let c = match &r { Ok(()) => R_OK, Err(CreateError::DuplicateId(_)) => R_DUPLICATE, Err(_) => R_OTHER };
             std::mem::forget(r);
-            c
+            res(c)
         }
         1 => {
             let r = if o.i == 0 { s.update(&id_of(0), rec()) } else { s.update(&id_of(1), rec()) };
             let c = match &r { Ok(()) => R_OK, Err(UpdateError::UnknownIdError(_)) => R_UNKNOWN, Err(_) => R_OTHER };
             std::mem::forget(r);
-            c
+            res(c)
         }
         2 => {
             let r = if o.i == 0 { s.update_ttl(&id_of(0), ttl) } else { s.update_ttl(&id_of(1), ttl) };
             let c = match &r { Ok(()) => R_OK, Err(UpdateTtlError::UnknownId(_)) => R_UNKNOWN, Err(_) => R_OTHER };
             std::mem::forget(r);
-            c
+            res(c)
         }
         3 => {
             let r = if o.i == 0 { s.delete(&id_of(0)) } else { s.delete(&id_of(1)) };
             let c = match &r { Ok(()) => R_OK, Err(DeleteError::UnknownId(_)) => R_UNKNOWN, Err(_) => R_OTHER };
             std::mem::forget(r);
-            c
+            res(c)
+        }
+        5 => {
+            let r = if o.i == 0 { s.load(&id_of(0)) } else { s.load(&id_of(1)) };
+            let out = match &r {
+                Ok(Some(rec)) => Res { code: R_OK, aux: verif_ticks(rec.ttl), st: of_state(&rec.state) },
+                Ok(None) => res(R_NONE),
+                Err(_) => res(R_OTHER),
+            };
+            std::mem::forget(r);
+            out
+        }
+        6 => {
+            let r = s.delete_expired(None);
+            let out = match &r {
+                Ok(n) => Res { code: R_OK, aux: *n as i64, st: [0, 0] },
+                Err(_) => res(R_OTHER),
+            };
+            std::mem::forget(r);
+            out
         }
         _ => {
             let r = match (o.i, o.j) {
@@ -606,7 +655,7 @@ fn exec_real(s: &InMemorySessionStore, o: &OpD) -> u8 {
             };
             let c = match &r { Ok(()) => R_OK, Err(ChangeIdError::UnknownId(_)) => R_UNKNOWN, Err(ChangeIdError::DuplicateId(_)) => R_DUPLICATE, Err(_) => R_OTHER };
             std::mem::forget(r);
-            c
+            res(c)
         }
     }
 }
@@ -625,14 +674,15 @@ fn vtrace_race(o: &OpD, a: &OpD) {
 }
 
 fn interleaved_body(kinds_lo: u8, kinds_hi: u8) {
-    let w = any_world();
+    // delete_expired iterates over the map: both physical orders of the two records
+    let w = any_world_o(kinds_hi > 5);
     let o = any_op(kinds_lo, kinds_hi);
     let a = any_op(0, 5);
     vtrace_race(&o, &a);
     unsafe {
         ADV_OP = a;
         ADV_NOW = w.now;
-        ADV_RES = R_NOT_RUN;
+        ADV_RES = res(R_NOT_RUN);
         tokio::verif::LOCKS = 0;
         tokio::verif::ON_RELOCK = Some(other_task);
     }
@@ -641,7 +691,7 @@ fn interleaved_body(kinds_lo: u8, kinds_hi: u8) {
     let ar = unsafe { ADV_RES };
     let (pa, pb) = (phys(&w.s, 0), phys(&w.s, 1));
     let later: i64 = nd::i64_in(w.now, T_MAX + TTL_MAX as i64 + 1);
-    if ar == R_NOT_RUN {
+    if ar.code == R_NOT_RUN {
         // one critical section: nobody can get in between
         let (want, m2) = model_apply(&w.m, &o, w.now);
         assert!(r == want, "the operation's result differs from the reference map's");
@@ -656,8 +706,8 @@ fn interleaved_body(kinds_lo: u8, kinds_hi: u8) {
         let ours_first = r == ro2 && ar == ra2 && views_match(&pa, &pb, &m2, w.now, later);
         assert!(other_first || ours_first, "an operation that lets go of the store lock midway produced an outcome that no sequential order of the two callers explains");
     }
-    kani::cover!(r == R_OK, "the operation under test succeeds");
-    kani::cover!(r != R_OK, "the operation under test is refused");
+    kani::cover!(r.code == R_OK, "the operation under test succeeds");
+    kani::cover!(r.code != R_OK, "the operation under test is refused / finds nothing");
     std::mem::forget(w);
 }
 
@@ -685,6 +735,19 @@ fn c13_interleaved_delete_change_id() {
     interleaved_body(3, 5);
 }
 
+// @tier quick
+// @obligation as c13_interleaved_writes, for load and delete_expired(None) as the operation under test (what load returns - state and remaining ttl - and the count delete_expired reports are part of the outcome that one of the two sequential orders must explain)
+// @bounds as c13_load / c13_delete_expired_all (both physical record orders); the other task performs at most one operation
+// @functions InMemorySessionStore::{load,delete_expired}, tokio::sync::Mutex::lock (interference hook)
+// @timeout 1800
+// @mem 40
+#[kani::proof]
+#[kani::unwind(4)]
+#[kani::stub(std::fmt::format, fmt_stub)]
+fn c13_interleaved_load_delete_expired() {
+    interleaved_body(5, 7);
+}
+
 /// Native search for a concrete failing input (see nd.rs); only built when a counterexample has to
 /// be made concrete.
 #[cfg(test)]
@@ -703,6 +766,8 @@ mod native_search {
     fn c13_interleaved_writes() { nd::search("c13_interleaved_writes", super::c13_interleaved_writes, reset) }
     #[test]
     fn c13_interleaved_delete_change_id() { nd::search("c13_interleaved_delete_change_id", super::c13_interleaved_delete_change_id, reset) }
+    #[test]
+    fn c13_interleaved_load_delete_expired() { nd::search("c13_interleaved_load_delete_expired", super::c13_interleaved_load_delete_expired, reset) }
     #[test]
     fn c13_delete_expired_all() { nd::search("c13_delete_expired_all", super::c13_delete_expired_all, reset) }
     #[test]
